@@ -191,6 +191,7 @@ def gen_asset_rows(rng, asset, exchanges, holders, flags, start_year):
     ts_styles = flags.get("ts_styles") or ["space"]
 
     last_kind = [None]
+    force_tie = [False]
     # few distinct prices: equal spot prices on different lots (ranking ties of price-based methods, equal sort keys)
     # (whale-sized amounts only ever meet micro prices: RP2's decimal context is designed for values below a quintillion - 18 integer
     # digits -, and 9e12 units at 24 000 apiece add up past that)
@@ -206,7 +207,7 @@ def gen_asset_rows(rng, asset, exchanges, holders, flags, start_year):
         # order-safe tie: reuse the previous instant when RP2's tie order (IN, then INTRA, then OUT, then sheet order) equals
         # the order of generation, so that the running balances of the validity model are the ones RP2 computes
         order = {"IN": 0, "INTRA": 1, "OUT": 2}
-        if flags.get("ties") and rows and kind and last_kind[0] and order[kind] >= order[last_kind[0]] and rng.random() < 0.3:
+        if flags.get("ties") and rows and kind and last_kind[0] and order[kind] >= order[last_kind[0]] and (force_tie[0] or rng.random() < 0.3):
             last_kind[0] = kind
             return t
         last_kind[0] = kind
@@ -385,6 +386,14 @@ def gen_asset_rows(rng, asset, exchanges, holders, flags, start_year):
         k = rng.random()
         if k < p_in:
             add_in()
+            if flags.get("ties") and rng.random() < 0.35:
+                # twin lots: the same purchase split over two exchanges at one instant (equal sort keys downstream), usually followed by a
+                # disposal that takes part of both
+                force_tie[0] = True
+                add_in(force_type="BUY")
+                force_tie[0] = False
+                if rng.random() < 0.6:
+                    add_out()
         elif k < p_out:
             add_out()
         else:
